@@ -165,11 +165,14 @@ def check_size(s):
         elif padded:
             pass
         else:
-            if not errored and msgs:
+            if not errored:     # "is reported as an error": also a parser that silently waits for more chunk data has accepted the size
                 shape = re.sub(r"[0-9a-fA-F]+", "H", s.strip())
-                cls = {"+H": "plus-sign", "-H": "minus-sign", "HxH": "0x-prefix", "HXH": "0x-prefix", "H_H": "underscore"}.get(shape, "other:" + shape)
+                shape = re.sub(r"[ \t]+", "w", shape)
+                cls = {"+H": "plus-sign", "-H": "minus-sign", "HxH": "0x-prefix", "HXH": "0x-prefix", "H_H": "underscore",
+                       "HwH": "inner-whitespace"}.get(shape, "other:" + shape)
                 v.append(("size-invalid-accepted:%s" % cls,
-                          "size line %r is not plain hex but was decoded as a chunk of %s bytes" % (s, None if gbody is None else len(gbody))))
+                          "size line %r is not plain hex but was not reported as an error (%s)" % (
+                              s, "decoded as a chunk of %s bytes" % (None if gbody is None else len(gbody)) if msgs else "parser waits for more chunk data")))
     return v
 
 
